@@ -334,7 +334,7 @@ class Flow:
         self._declared = declared
         return {i: n for i, n in assigned.items() if i not in declared}
 
-    def _havoc(self, S, hv, tag, declared=()):
+    def _havoc(self, S, hv, tag, declared=(), entry=False):
         out = []
         for s in S:
             s = s.copy()
@@ -342,7 +342,7 @@ class Flow:
                 s.env.pop(vid, None)
                 s.d.pop(("v", vid), None)
             if hv is not None and tag and not tag.endswith("'"):
-                self.dom.at_loop_head(self, s, hv, tag, hv)
+                self.dom.at_loop_head(self, s, hv, tag, {"names": hv, "entry": entry})
             for vid, name in (hv or {}).items():
                 if vid in s.env:
                     sym = "%s#%s" % (name, tag)
@@ -365,13 +365,13 @@ class Flow:
         seen = set()
         exits, rets = [], []
         if not test_first:
-            o = self.stmt(body, self._havoc(S, hv, tag, decl))
+            o = self.stmt(body, self._havoc(S, hv, tag, decl, entry=True))
             exits += o.b
             rets += o.r
             heads = o.n + o.c
         else:
             heads = S
-        work = self._havoc(heads, hv, tag, decl)
+        work = self._havoc(heads, hv, tag, decl, entry=test_first)
         iters = 0
         while work:
             iters += 1
@@ -406,7 +406,7 @@ class Flow:
         """Bounded treatment for loops without a region end inside (used by trace domains, whose
         states do not converge): the paths 'zero iterations' and 'one representative iteration'."""
         tag = "L%s" % (body.get("line") or "?")
-        heads = self._havoc(S, hv, tag, decl)
+        heads = self._havoc(S, hv, tag, decl, entry=True)
         if cond is not None:
             T, F = self.cond(cond, heads)
         else:
@@ -644,6 +644,7 @@ class Flow:
                 saved = {}
                 for p, a in zip(f.params, args):
                     saved[p["id"]] = s1.env.get(p["id"])
+                    self.dom.local_assign(self, s1, p["id"], p.get("name"), a, "=", call)
                     s1.env[p["id"]] = self.canon(s1, a)
                 self.stack.append(f)
                 try:
